@@ -326,3 +326,18 @@ func FmtEls(el []interface{}) string {
 	}
 	return s + "]"
 }
+
+// FromFloat converts f to the element type d (float and complex types only; complex gets a zero imaginary part).
+func FromFloat(d DT, f float64) interface{} {
+	switch d.Name {
+	case "float32":
+		return float32(f)
+	case "float64":
+		return f
+	case "complex64":
+		return complex(float32(f), float32(0))
+	case "complex128":
+		return complex(f, 0)
+	}
+	panic("FromFloat: " + d.Name)
+}
